@@ -43,6 +43,9 @@ CLAIMED = {
  "C05": ("rapid property-based testing with an independent verifier (stdlib ed25519/ecdsa/dsa over the raw received bytes) as oracle; generators = model-built, stdlib-signed structures x adversarial derivations (forged/transplanted offline blocks, attacker-key signatures, structure-aware byte edits)",
          "Soundness only: whenever the library parses a derived input and reports successful verification, the strict model must decode exactly the consumed bytes and the signature chain (identity key -> optional transient key -> outer signature with the 0x03/0x07/0x05 prefix) must hold over those bytes. ~40k derivations per quick run, ~60% still parse; the evidence counts genuine bases that verify so the check cannot be vacuous.",
          "crypto/ed25519, crypto/ecdsa, crypto/dsa and the I2P DSA parameters are trusted; forging is explored structurally, not cryptanalytically. ECDSA-signed structures never verify in this tree (go-i2p/crypto rejects the 64/96-byte key format: fails closed), so P-256/P-384 bases only exercise the rejecting side.", "DESIGN.md 5/C05"),
+ "C06": ("rapid property-based testing over constructor arguments with a three-fold oracle: library Verify on the constructed value, library Verify after serialise+parse, and the independent stdlib verifier over the raw bytes",
+         "Every signing constructor (NewRouterInfo, NewLeaseSet, NewLeaseSet2, NewEncryptedLeaseSet(+FromDestination, four key representations), CreateOfflineSignature) on ~12k generated argument tuples per quick run incl. empty values, one-character keys, 0..8 addresses, 0..16 leases, all flag combinations, offline blocks with transient types 0,1,7,11. A symmetric sign/verify mistake is caught by the independent verifier.",
+         "Known finding F-ECDSA-VERIFY (P-256-signed output never verifies; defect in the go-i2p/crypto dependency) is excluded by signature and counted. P-384 private keys do not implement types.SigningPrivateKey and cannot be passed to the constructors at all.", "DESIGN.md 5/C06"),
 }
 checks = []
 for pid in ids:
